@@ -173,6 +173,54 @@ theorem racing_withdrawals (p : Pool) (w : String) (attempts : List (Bool × Int
       rw [(h2 w).1, (h2 w).2] at ih'
       exact ih'
 
+/-! ### credit earned while the settlement is in flight -/
+
+/-- with nothing arriving meanwhile `WithdrawDuring` is `Withdraw` -/
+theorem withdrawDuring_none (p : Pool) (sigOk : Bool) (w : String) (nonce now : Int) (settleOk : Bool) :
+    p.WithdrawDuring sigOk w nonce now settleOk none = p.Withdraw sigOk w nonce now settleOk := by
+  unfold WithdrawDuring Withdraw
+  cases p.payVerify sigOk w nonce now with
+  | error e => rfl
+  | ok p1 =>
+    simp only
+    repeat' split
+    all_goals rfl
+
+/-- **what a node linked to the wallet earns while the wallet's withdrawal is being settled stays on the books**:
+the withdrawal pays what was owed when it read the balance, and afterwards the wallet is owed exactly the credit that
+arrived in the meantime - it is neither paid out unseen nor wiped by the deduction -/
+theorem credit_during_settlement_preserved (p : Pool) (sigOk : Bool) (w id : String) (nonce now amt pay : Int) (n : Node)
+    (hn : p.store.nodes.get id = some n) (hl : p.store.accounts.get id = some w)
+    (h : (p.WithdrawDuring sigOk w nonce now true (some (id, amt))).2 = .ok pay) :
+    pay = owed p w - feeOf p.cfg ∧ owed (p.WithdrawDuring sigOk w nonce now true (some (id, amt))).1 w = amt := by
+  unfold WithdrawDuring payVerify at h ⊢
+  cases hv : p.verify sigOk w nonce now with
+  | error e => simp [hv] at h
+  | ok p1 =>
+    obtain ⟨_, hnodes, hbal, _, hacc, _, _, _, hcfg, hdep, _⟩ := verify_frame p p1 sigOk w nonce now hv
+    simp only [hv] at h ⊢
+    by_cases hen : p1.cfg.settleEnabled = true
+    · simp only [hen, Bool.not_true, Bool.false_eq_true, if_false] at h ⊢
+      by_cases hm : belowWithdrawMin p1.cfg ((p1.walletBalance w).deposit + (p1.walletBalance w).credit) = true
+      · simp [hm] at h
+      · simp only [hm, if_false, Bool.not_true, Bool.false_eq_true] at h ⊢
+        cases h
+        have hadd : ∀ b0 : Bal, b0 = (p1.store.balances.get w).getD {} → p1.store.addNodeBalance id amt =
+            .ok { p1.store with balances := AList.set p1.store.balances w { b0 with credit := b0.credit + amt } } := by
+          intro b0 hb0
+          have hn1 : p1.store.nodes.get id = some n := by rw [hnodes]; exact hn
+          have hl1 : p1.store.accounts.get id = some w := by rw [hacc]; exact hl
+          simp only [Store.addNodeBalance, hn1, hl1, hb0]
+        have hadd := hadd _ rfl
+        refine ⟨?_, ?_⟩
+        · rw [withdrawPay_eq, hcfg]
+          simp only [owed, walletBalance, Store.getAccountBalance, hbal, hdep]
+        · simp only [hadd, owed, walletBalance, Store.addAccountBalance, Store.getAccountBalance, get_set_eq,
+            Option.getD_some]
+          omega
+    · have hen' : p1.cfg.settleEnabled = false := by simpa using hen
+      simp [hen'] at h
+
 /-- the pre-repair withdrawal (credit left in place): the witness that motivated the repair (DESIGN.md §9 F5) -/
 def WithdrawOld (p : Pool) (w : String) : Pool × Int :=
   let b := p.walletBalance w
